@@ -42,7 +42,43 @@ def main(inp, outp):
             if sum(1 for v in res["violations"] if v["key"] == key) < 4:
                 res["violations"].append({"key": key, "what": what, "data": data})
 
-    for v in job["vectors"]:
+    # ---- histories of settings on ONE ephemeris object (EphemSettings.tla) -----------------------------------------------
+    for beh in job.get("settings", []):
+        n, deg, h = 16, beh["degree"], 30.0
+        coef = [[((3 * k + 7 * j) % 11 - 5) / (10.0 ** j) for j in range(deg + 1)] for k in range(6)]
+
+        def poly(t):
+            return [sum(c * (t / 100.0) ** j for j, c in enumerate(coef[k])) for k in range(6)]
+        dates = [T0 + timedelta(seconds=h * a) for a in range(n)]
+        svs = [StateVector(poly(h * a), d, "cartesian", "EME2000") for a, d in zip(range(n), dates)]
+        eph = Ephem(svs)
+        data = {"hist": beh["hist"], "degree": deg, "how": "one Ephem object: ephem.order = k / ephem.method = m / ephem.interpolate(date) in that order; "
+                                                           "each result compared with a fresh Ephem(orbs, method=m, order=k)"}
+        res["traces"] += 1
+        for act in beh["hist"]:
+            if act[0] == "order":
+                eph.order = act[1]
+            elif act[0] == "method":
+                eph.method = act[1]
+            else:
+                q, m, k = act[1], act[2], act[3]
+                t = h * q / 2.0
+                d = T0 + timedelta(seconds=t)
+                got = np.asarray(eph.interpolate(d), float)
+                fresh = np.asarray(Ephem(svs, method=m, order=k).interpolate(d), float)
+                res["evaluations"] += 1
+                sc = max(1.0, float(np.abs(fresh).max()))
+                clause("an interpolation uses the method and order in force when it is made, whatever was interpolated or set before",
+                       float(np.abs(got - fresh).max()) <= 1e-9 * sc and eph.order == k and eph.method == m, "interp/settings-history",
+                       f"after {beh['hist']}: interpolate at {t} s differs from a fresh Ephem(method={m}, order={k}) by {float(np.abs(got - fresh).max()):.3g} "
+                       f"(getters report method={eph.method}, order={eph.order})", data)
+                if m == "lagrange" and deg < k:
+                    want = np.asarray(poly(t), float)
+                    clause("Lagrange interpolation of order k reproduces a polynomial trajectory of degree < k (after a history of settings)",
+                           float(np.abs(got - want).max()) <= 1e-7 * max(1.0, float(np.abs(want).max())), "interp/settings-polynomial",
+                           f"after {beh['hist']}: degree {deg} polynomial not reproduced at order {k}: off by {float(np.abs(got - want).max()):.3g}", data)
+        kinds.add(("settings", len(beh["hist"]), deg))
+    for v in job.get("vectors", []):
         xs, order, q, verdict = v["xs"], v["order"], v["x"], v["verdict"]
         n = len(xs)
         data = {"xs": xs, "order": order, "x": q, "how": "Interp(xs, ys, 'lagrange', order)(x) with ys = identity rows / polynomial samples"}
